@@ -704,6 +704,16 @@ func protoOps() []ptop {
 			_, err = v.MarshalTo(d2, &o0)
 			return errClass(err)
 		}},
+		{"proto.Value.MarshalTo(same descriptor objects)", func(sd *pseed, in []byte) string {
+			// source and target from ONE parse: every (sub-)descriptor is the same object on both sides
+			d, err := protoDesc("")
+			if err != nil {
+				return "harness-idl"
+			}
+			v := pgeneric.NewRootValue(d, in)
+			_, err = v.MarshalTo(d, &o0)
+			return errClass(err)
+		}},
 		{"proto.Value.Fields/GetMany", func(sd *pseed, in []byte) string {
 			d, err := protoDesc("")
 			if err != nil {
